@@ -323,9 +323,28 @@ def run_impl(case):
         other = dict(case)
         other["comps"] = [dict(t=c["t"], X=[[rs(2 * F(x) + Fraction(j, 8)) for j, x in enumerate(r[::-1])] for r in c["X"][::-1]])
                           for c in case["comps"]]
+        # … and with the OTHER setting of every estimator option (reset through the attributes before the refit)
+        other["normalize"] = not case["normalize"]
+        other["n_components"] = 1 if case["n_components"] != 1 else 2
         oB, estB = _fit(other, tuple(range(P)))
         if "error" not in oB:
+            estB.normalize, estB.n_components = case["normalize"], case["n_components"]
             o3, _ = _fit(case, tuple(range(P)), est=estB)
+            # cause test of the stale-weights finding: the refit reconstruction is the fresh one rescaled by √(stale weight)
+            expl = False
+            if "error" not in o3 and not _same(fits[0]["weights"], o3["weights"]) and all(_finite(r) for r in o3["rec"]) and all(_finite(r) for r in fits[0]["rec"]):
+                expl = True
+                for q in range(P):
+                    m0 = np.asarray(fits[0]["mean"][q], dtype=float)[None, :]
+                    a = np.asarray(fits[0]["rec"][q], dtype=float) - m0
+                    b = np.asarray(o3["rec"][q], dtype=float) - m0
+                    fac = np.sqrt(o3["weights"][q] / fits[0]["weights"][q])
+                    # a, b are differences of rounded numbers of the size of the reconstruction: tolerance at that scale
+                    size = max(float(np.abs(np.asarray(fits[0]["rec"][q], dtype=float)).max()), float(np.abs(np.asarray(o3["rec"][q], dtype=float)).max()), 1e-300)
+                    if np.abs(b - fac * a).max() > 1e-9 * size * max(fac, 1.0):
+                        expl = False
+            out["refit_explained_by_stale_weights"] = bool(expl)
+            out["refit_other_diff"] = [k for k in ("eigenvalues", "coef", "psi", "pace", "rec", "mean", "xi") if "error" in o3 or not _same(fits[0][k], o3[k])]
             keys = ("eigenvalues", "coef", "psi", "pace", "rec", "mean", "xi")
             out["refit_other"] = bool("error" not in o3 and all(_same(fits[0][k], o3[k]) for k in keys))
     # read-only-looking calls must not write state: fit(train) -> snapshot -> transform(OTHER data) /
@@ -800,7 +819,10 @@ def oracle(case, impl):
     if not impl.get("ro_rec_same", True):
         bad("readonly_calls", f"inverse_transform / transform(None) of the same scores differ before and after scoring other data (rel. dev {impl.get('ro_rec_dev')})", "MFPCA.inverse_transform", causes=["state_written_by_transform"])
     if not impl.get("refit_other", True):
-        bad("refit_same", "a fit on an estimator that was fitted on other data before (and used) differs from a fresh fit", causes=["stale_state"])
+        cs = ["stale_state"]
+        if impl.get("refit_other_diff") == ["rec"] and impl.get("refit_explained_by_stale_weights"):
+            cs.append("stale_weights_after_normalize_toggle")
+        bad("refit_same", f"a fit on an estimator that was fitted on other data / with other options before (and used) differs from a fresh fit in {impl.get('refit_other_diff')}", causes=cs)
     P = len(case["comps"])
     for f in fits:
         if "error" in f:
